@@ -55,27 +55,66 @@ theorem lower_lt_upper (leaf : Cert) (tl : Chain) :
   · intro h d hd
     exact (lowerBound_lt leaf tl _).mpr (fun c hc => h c hc d hd)
 
+/-! ### `time.Time` comparisons against whole-second certificate times -/
+
+/-- `t` is strictly earlier than `u` on the time line (seconds, then nanoseconds) -/
+def Time.lt (t u : Time) : Prop := t.sec < u.sec ∨ (t.sec = u.sec ∧ t.nsec < u.nsec)
+
+instance (t u : Time) : Decidable (t.lt u) := inferInstanceAs (Decidable (_ ∨ _))
+
+/-- the first whole second that is not before `t` -/
+def Time.up (t : Time) : Int := if t.nsec > 0 then t.sec + 1 else t.sec
+
+theorem Time.up_bounds (t : Time) : t.sec ≤ t.up ∧ t.up ≤ t.sec + 1 := by
+  unfold Time.up; split <;> omega
+
+theorem before_iff_lt (t u : Time) : t.before u = true ↔ t.lt u := by
+  simp only [Time.before, Time.lt, Bool.or_eq_true, Bool.and_eq_true, decide_eq_true_eq]
+
+theorem after_iff_lt (t u : Time) : t.after u = true ↔ u.lt t := by
+  simp only [Time.after, Time.lt, Bool.or_eq_true, Bool.and_eq_true, decide_eq_true_eq, gt_iff_lt]
+  constructor
+  · rintro (h | ⟨h1, h2⟩)
+    · exact Or.inl h
+    · exact Or.inr ⟨h1.symm, h2⟩
+  · rintro (h | ⟨h1, h2⟩)
+    · exact Or.inl h
+    · exact Or.inr ⟨h1.symm, h2⟩
+
+theorem ofSec_lt_iff (a : Int) (t : Time) : (Time.ofSec a).lt t ↔ a < t.up := by
+  simp only [Time.lt, Time.ofSec, Time.up]
+  split <;> omega
+
+theorem lt_ofSec_iff (t : Time) (a : Int) : t.lt (Time.ofSec a) ↔ t.sec < a := by
+  simp only [Time.lt, Time.ofSec]
+  omega
+
+theorem ofSec_lt_ofSec (a b : Int) : (Time.ofSec a).lt (Time.ofSec b) ↔ a < b := by
+  simp only [Time.lt, Time.ofSec]
+  omega
+
 /-! ### Boolean classifiers computed by `FilterByDate` -/
 
 /-- the `valid` flag of `FilterByDate` (false for the skipped empty chain) -/
-def validB (ch : Chain) (now : Int) : Bool :=
+def validB (ch : Chain) (now : Time) : Bool :=
   match ch with
   | [] => false
-  | leaf :: tl => decide (lowerBound leaf tl < now) && decide (upperBound leaf tl > now)
+  | leaf :: tl => (Time.ofSec (lowerBound leaf tl)).before now && (Time.ofSec (upperBound leaf tl)).after now
 
 /-- the `wasValid` flag of `FilterByDate` (false for the skipped empty chain) -/
 def wasValidB (ch : Chain) : Bool :=
   match ch with
   | [] => false
-  | leaf :: tl => decide (lowerBound leaf tl < upperBound leaf tl)
+  | leaf :: tl => (Time.ofSec (lowerBound leaf tl)).before (Time.ofSec (upperBound leaf tl))
 
-theorem validB_iff (ch : Chain) (now : Int) :
-    validB ch now = true ↔ ch ≠ [] ∧ ∀ c ∈ ch, c.notBefore < now ∧ now < c.notAfter := by
+theorem validB_iff (ch : Chain) (now : Time) :
+    validB ch now = true ↔
+      ch ≠ [] ∧ ∀ c ∈ ch, (Time.ofSec c.notBefore).lt now ∧ now.lt (Time.ofSec c.notAfter) := by
   cases ch with
   | nil => simp [validB]
   | cons leaf tl =>
-    simp only [validB, Bool.and_eq_true, decide_eq_true_eq, gt_iff_lt, lowerBound_lt, lt_upperBound,
-      ne_eq, reduceCtorEq, not_false_eq_true, true_and]
+    simp only [validB, Bool.and_eq_true, before_iff_lt, after_iff_lt, ofSec_lt_iff, lt_ofSec_iff,
+      lowerBound_lt, lt_upperBound, ne_eq, reduceCtorEq, not_false_eq_true, true_and]
     constructor
     · rintro ⟨h1, h2⟩ c hc
       exact ⟨h1 c hc, h2 c hc⟩
@@ -87,26 +126,27 @@ theorem wasValidB_iff (ch : Chain) :
   cases ch with
   | nil => simp [wasValidB]
   | cons leaf tl =>
-    simp only [wasValidB, decide_eq_true_eq, lower_lt_upper, ne_eq, reduceCtorEq, not_false_eq_true,
-      true_and]
+    simp only [wasValidB, before_iff_lt, ofSec_lt_ofSec, lower_lt_upper, ne_eq, reduceCtorEq,
+      not_false_eq_true, true_and]
 
 /-- the branch guarded by `panic("valid && !wasValid …")` is dead -/
-theorem validB_wasValidB (ch : Chain) (now : Int) (h : validB ch now = true) : wasValidB ch = true := by
+theorem validB_wasValidB (ch : Chain) (now : Time) (h : validB ch now = true) : wasValidB ch = true := by
   cases ch with
   | nil => simp [validB] at h
   | cons leaf tl =>
-    simp only [validB, Bool.and_eq_true, decide_eq_true_eq, gt_iff_lt] at h
-    simp only [wasValidB, decide_eq_true_eq]
+    simp only [validB, Bool.and_eq_true, before_iff_lt, after_iff_lt, ofSec_lt_iff, lt_ofSec_iff] at h
+    simp only [wasValidB, before_iff_lt, ofSec_lt_ofSec]
+    have := now.up_bounds
     omega
 
 /-! ### `FilterByDate` is three filters -/
 
-def currentOf (chains : List Chain) (now : Int) : List Chain := chains.filter (fun ch => validB ch now)
-def expiredOf (chains : List Chain) (now : Int) : List Chain :=
+def currentOf (chains : List Chain) (now : Time) : List Chain := chains.filter (fun ch => validB ch now)
+def expiredOf (chains : List Chain) (now : Time) : List Chain :=
   chains.filter (fun ch => !validB ch now && wasValidB ch)
 def neverOf (chains : List Chain) : List Chain := chains.filter (fun ch => !ch.isEmpty && !wasValidB ch)
 
-theorem filterByDate_eq (chains : List Chain) (now : Int) :
+theorem filterByDate_eq (chains : List Chain) (now : Time) :
     filterByDate chains now =
       .ok { current := currentOf chains now, expired := expiredOf chains now, never := neverOf chains } := by
   induction chains with
@@ -117,8 +157,10 @@ theorem filterByDate_eq (chains : List Chain) (now : Int) :
       simp only [filterByDate, ih, currentOf, expiredOf, neverOf, List.filter_cons, validB, wasValidB,
         List.isEmpty_nil, Bool.not_true, Bool.false_and, Bool.false_eq_true, if_false, Bool.and_false]
     | cons leaf tl =>
-      have hv : validB (leaf :: tl) now = (decide (lowerBound leaf tl < now) && decide (upperBound leaf tl > now)) := rfl
-      have hw : wasValidB (leaf :: tl) = decide (lowerBound leaf tl < upperBound leaf tl) := rfl
+      have hv : validB (leaf :: tl) now =
+          ((Time.ofSec (lowerBound leaf tl)).before now && (Time.ofSec (upperBound leaf tl)).after now) := rfl
+      have hw : wasValidB (leaf :: tl) =
+          (Time.ofSec (lowerBound leaf tl)).before (Time.ofSec (upperBound leaf tl)) := rfl
       have hvw := validB_wasValidB (leaf :: tl) now
       simp only [filterByDate, ih, ← hv, ← hw]
       simp only [currentOf, expiredOf, neverOf, List.filter_cons, List.isEmpty_cons, Bool.not_false,
@@ -126,7 +168,7 @@ theorem filterByDate_eq (chains : List Chain) (now : Int) :
       cases hvb : validB (leaf :: tl) now <;> cases hwb : wasValidB (leaf :: tl) <;> simp_all
 
 /-- the three classes partition the non-empty chains (order inside each class is kept) -/
-theorem partition_perm_aux (chains : List Chain) (now : Int) :
+theorem partition_perm_aux (chains : List Chain) (now : Time) :
     (currentOf chains now ++ expiredOf chains now ++ neverOf chains).Perm
       (chains.filter (fun ch => !ch.isEmpty)) := by
   induction chains with
@@ -152,13 +194,14 @@ theorem partition_perm_aux (chains : List Chain) (now : Int) :
           List.cons_append]
         exact List.Perm.cons _ ih
 
-theorem mem_currentOf {chains : List Chain} {now : Int} {ch : Chain} :
-    ch ∈ currentOf chains now ↔ ch ∈ chains ∧ ch ≠ [] ∧ ∀ c ∈ ch, c.notBefore < now ∧ now < c.notAfter := by
+theorem mem_currentOf {chains : List Chain} {now : Time} {ch : Chain} :
+    ch ∈ currentOf chains now ↔ ch ∈ chains ∧ ch ≠ [] ∧
+      ∀ c ∈ ch, (Time.ofSec c.notBefore).lt now ∧ now.lt (Time.ofSec c.notAfter) := by
   simp only [currentOf, List.mem_filter, validB_iff]
 
-theorem mem_expiredOf {chains : List Chain} {now : Int} {ch : Chain} :
+theorem mem_expiredOf {chains : List Chain} {now : Time} {ch : Chain} :
     ch ∈ expiredOf chains now ↔ ch ∈ chains ∧ ch ≠ [] ∧
-      (¬ ∀ c ∈ ch, c.notBefore < now ∧ now < c.notAfter) ∧
+      (¬ ∀ c ∈ ch, (Time.ofSec c.notBefore).lt now ∧ now.lt (Time.ofSec c.notAfter)) ∧
       ∀ c ∈ ch, ∀ d ∈ ch, c.notBefore < d.notAfter := by
   simp only [expiredOf, List.mem_filter, Bool.and_eq_true, Bool.not_eq_true', wasValidB_iff]
   rw [← Bool.not_eq_true, validB_iff]
@@ -179,7 +222,7 @@ theorem mem_neverOf {chains : List Chain} {ch : Chain} :
   · rintro ⟨h1, h2, h3⟩
     exact ⟨h1, h2, fun h => h3 h.2⟩
 
-theorem mem_allChains {chains : List Chain} {now : Int} {ch : Chain} :
+theorem mem_allChains {chains : List Chain} {now : Time} {ch : Chain} :
     ch ∈ currentOf chains now ++ expiredOf chains now ++ neverOf chains ↔ ch ∈ chains ∧ ch ≠ [] := by
   rw [(partition_perm_aux chains now).mem_iff]
   simp only [List.mem_filter, Bool.not_eq_true', List.isEmpty_eq_false_iff]
@@ -426,26 +469,31 @@ theorem certType_rule (g : Graph) (c : Cert) (parents : List Cert) :
 /-- the `parents` field: from the chains valid at expiry when the certificate is expired at `t`,
     otherwise from the current chains -/
 def parentsOf (c : Cert) (opts : Opts) (chains : List Chain) : List Cert :=
-  if !timeInValidityPeriod c opts.time then
-    parentsFromChains (currentOf (currentOf chains opts.time ++ expiredOf chains opts.time ++ neverOf chains)
-      (c.notAfter - 1))
-  else parentsFromChains (currentOf chains opts.time)
+  if !timeInValidityPeriod c opts.now then
+    parentsFromChains (currentOf (currentOf chains opts.now ++ expiredOf chains opts.now ++ neverOf chains)
+      (Time.ofSec (c.notAfter - 1)))
+  else parentsFromChains (currentOf chains opts.now)
 
 theorem assemble_eq (g : Graph) (c : Cert) (opts : Opts) (chains : List Chain) :
     assemble g c opts chains = .ok
-      { expired := !timeInValidityPeriod c opts.time
-        current := currentOf chains opts.time
-        expiredChains := expiredOf chains opts.time
+      { expired := !timeInValidityPeriod c opts.now
+        current := currentOf chains opts.now
+        expiredChains := expiredOf chains opts.now
         never := neverOf chains
         validAtExpiration :=
-          currentOf (currentOf chains opts.time ++ expiredOf chains opts.time ++ neverOf chains) (c.notAfter - 1)
+          currentOf (currentOf chains opts.now ++ expiredOf chains opts.now ++ neverOf chains)
+            (Time.ofSec (c.notAfter - 1))
         parents := parentsOf c opts chains
         nameError := match opts.name with
           | .none => Option.none
           | n => some (!nameMatches c n)
         inRevocationSet := revocationFlag opts c (parentsOf c opts chains)
         ctype := certType g c (parentsOf c opts chains)
-        parentSK := (parentsOf c opts chains).head?.map (·.sk) } := by
+        parentSK := (parentsOf c opts chains).head?.map (·.sk)
+        ocspCall := if ocspDue opts then some (parentsOf c opts chains).head? else none
+        ocsp := if ocspDue opts then (providerOf opts).ocsp else ProvAns.zero
+        crlCall := crlDue opts
+        crl := if crlDue opts then (providerOf opts).crl else ProvAns.zero } := by
   simp only [assemble, filterByDate_eq]
   rfl
 
